@@ -6,6 +6,7 @@ mod cluster;
 mod evidence;
 mod harness;
 mod model;
+mod mutate;
 mod props;
 mod rng;
 mod runner;
@@ -80,6 +81,30 @@ fn cmd_run(args: &[String]) -> i32 {
         budget_s = b;
     }
     let started = Instant::now();
+    if property == "C08" {
+        // Measure the scripted exchange once, so that the truncation
+        // enumeration covers exactly every offset of every frame.
+        let req = RunRequest {
+            property: property.clone(),
+            tier: tier.clone(),
+            base_seed: seed,
+            run_index: 0,
+            tape: None,
+            trace: false,
+            seed_override: None,
+        };
+        let res = runner::run_in_child(&req, props::c08::dry_run_table, Duration::from_secs(60));
+        let lens = res.report["sample"]["frame_lens"].clone();
+        if res.status != "ok" || !lens.is_array() {
+            eprintln!("C08 dry run failed: {} {}", res.status, res.msg);
+            return 2;
+        }
+        let dir = verif_dir().join("target").join("runs");
+        let _ = std::fs::create_dir_all(&dir);
+        let path = dir.join(format!("c08-table-{}.json", std::process::id()));
+        std::fs::write(&path, lens.to_string()).expect("write table");
+        unsafe { std::env::set_var("VERIF_C08_TABLE", &path) };
+    }
     let tmp = verif_dir().join("target").join("runs").join(format!("{property}-{tier}-{}", std::process::id()));
     let lines = runner::run_batch(
         &property,
@@ -93,6 +118,15 @@ fn cmd_run(args: &[String]) -> i32 {
         &tmp,
     );
     let _ = std::fs::remove_dir_all(&tmp);
+    let mut enum_total: Option<u64> = None;
+    if let Ok(p) = std::env::var("VERIF_C08_TABLE") {
+        if let Ok(t) = std::fs::read_to_string(&p) {
+            if let Ok(v) = serde_json::from_str::<Value>(&t) {
+                enum_total = v.as_array().map(|a| a.iter().map(|x| x.as_u64().unwrap_or(0)).sum());
+            }
+        }
+        let _ = std::fs::remove_file(&p);
+    }
     let mut agg = evidence::Agg::default();
     let mut bad: Vec<Value> = Vec::new();
     let mut harness_errors = 0;
@@ -131,6 +165,7 @@ fn cmd_run(args: &[String]) -> i32 {
             run_index,
             tape: None,
             trace: false,
+            seed_override: None,
         };
         let first = RunResult {
             status: b["status"].as_str().unwrap_or("").into(),
@@ -144,9 +179,13 @@ fn cmd_run(args: &[String]) -> i32 {
         let (tape, res, used) = if orig_len > 0 {
             runner::minimise(&req, f, Duration::from_secs(wall_s), &first, budget)
         } else {
-            (Vec::new(), first.clone(), 0)
+            // The child died before it could report its tape: replay by seed
+            // (generation is a pure function of the seed).
+            let again = runner::run_in_child(&req, f, Duration::from_secs(wall_s));
+            (Vec::new(), again, 1)
         };
         let reproduced = res.class() == first.class() && used > 0;
+        let res = if reproduced { res } else { first.clone() };
         let path = replay_dir.join(format!("{property}-{seed}-{run_index}.json"));
         let replay = json!({
             "engine": "dsim",
@@ -154,7 +193,7 @@ fn cmd_run(args: &[String]) -> i32 {
             "tier": tier,
             "base_seed": seed,
             "run_index": run_index,
-            "tape": tape,
+            "tape": if orig_len > 0 { json!(tape) } else { Value::Null },
             "original_tape_len": orig_len,
             "minimise_runs": used,
             "expected": {"status": res.status, "oracle": res.oracle, "msg": res.msg,
@@ -202,6 +241,9 @@ fn cmd_run(args: &[String]) -> i32 {
     });
     // The signature list is large; keep only its size in the result file.
     let mut result = result;
+    if let Some(t) = enum_total {
+        result["agg"]["counters"]["enum_truncation_points_total"] = json!(t);
+    }
     result["agg"]["sigs"] = json!(agg.sigs.len());
     std::fs::write(&out_path, serde_json::to_string(&result).unwrap()).expect("write result");
     if harness_errors > 0 {
@@ -242,6 +284,7 @@ fn cmd_one(args: &[String]) -> i32 {
         run_index: index,
         tape: None,
         trace: flag(args, "--trace"),
+        seed_override: None,
     };
     let res = runner::run_in_child(&req, f, Duration::from_secs(120));
     print_report(&res, flag(args, "--tape"));
@@ -267,6 +310,7 @@ fn cmd_replay(args: &[String]) -> i32 {
         run_index: v["run_index"].as_u64().unwrap_or(0),
         tape: if v["tape"].is_null() { None } else { Some(tape) },
         trace: flag(args, "--trace"),
+        seed_override: None,
     };
     let res = runner::run_in_child(&req, f, Duration::from_secs(180));
     print_report(&res, false);
@@ -311,6 +355,7 @@ fn cmd_determinism(args: &[String]) -> i32 {
                     run_index: idx,
                     tape: None,
                     trace: false,
+                    seed_override: None,
                 };
                 let a = runner::run_in_child(&req, f, Duration::from_secs(120));
                 let b = runner::run_in_child(&req, f, Duration::from_secs(120));
